@@ -1,12 +1,110 @@
 /-
   C14 — NRPS/PKS modules partition a gene's domains in order and obey the module rules.
+
+  Model: ASV/Model/Modules.lean (module_identification.py, literal transcription; every Python
+  `assert` is an explicit error value).  Spec: ASV/Spec/Modules.lean (the documented layout and
+  completeness rule, over plain component lists).  Tables: ASV/Generated/Modules.lean (regenerated
+  from the source on every run; the table facts these theorems rest on are `decide`d in
+  ASV/Proofs/ModulesTables.lean, so an edit of the tables that breaks one breaks this file).
+
+  All theorems quantify over ALL finite domain lists (any labels of the regenerated alphabet, any
+  subtypes, any query positions, any input order) — no size bound anywhere.
 -/
-import ASV.Spec.Modules
+import ASV.Proofs.ModulesPartition
 namespace ASV.C14
 open ASV ASV.Modules ASV.Modules.T
 
-/-- every loader-capable label is starter-capable (regenerated tables) -/
-theorem loader_sub_starter : ∀ l ∈ adenylations ++ acyltransferases ++ [coaLigaseLabel],
-    starterCollections.any (fun col => col.contains l) = true := by decide
+/-- the guard of the real code: `Component.__init__` classifies the label (ValueError) and
+    asserts a non-empty gene name -/
+def InputOK (ds : List Domain) (name : String) : Prop :=
+  name.isEmpty = false ∧ ∀ d ∈ ds, (classify d.label).isSome = true
+
+/-- 1. `build_modules_for_cds` never fails: no assertion (in `add_component`, `ensure_suitable`,
+    or the final non-emptiness check) is reachable, and IncompatibleComponentError never escapes -/
+theorem build_total (ds : List Domain) (name : String) (h : InputOK ds name) :
+    ∃ ms, build ds name = .ok ms := by
+  obtain ⟨ms, hb, _⟩ := build_spec ds name h.1 h.2
+  exact ⟨ms, hb⟩
+
+/-- … the error branch: the only failures are the two constructor guards (unclassified label,
+    or empty gene name with at least one domain) -/
+theorem build_fails_only_on_guard (ds : List Domain) (name : String) (e : Err)
+    (h : build ds name = .error e) :
+    (name.isEmpty = true ∧ ds ≠ []) ∨ ∃ d ∈ ds, (classify d.label).isSome = false := by
+  by_cases hex : ∃ d ∈ ds, (classify d.label).isSome = false
+  · exact Or.inr hex
+  · left
+    have hc : ∀ d ∈ ds, (classify d.label).isSome = true := by
+      intro d hd
+      cases hs : (classify d.label).isSome with
+      | true => rfl
+      | false => exact absurd ⟨d, hd, hs⟩ hex
+    cases hn : name.isEmpty with
+    | false =>
+      obtain ⟨ms, hb, _⟩ := build_spec ds name hn hc
+      rw [hb] at h; cases h
+    | true =>
+      refine ⟨rfl, ?_⟩
+      intro hd; subst hd
+      rw [build_nil] at h; cases h
+
+/-- 2. the modules, read left to right, are exactly the gene's non-docking domains in query
+    order (stable), each once, each with the gene as locus; every module is non-empty; only the
+    first is flagged first-in-gene.  `Spec.partition` is the definition the driver evaluates on
+    the implementation's output; it also contains the sort-independent reading (a permutation of
+    the kept input that is non-decreasing in query start). -/
+theorem build_partition (ds : List Domain) (name : String) (h : InputOK ds name) (ms : List Module)
+    (hb : build ds name = .ok ms) :
+    Spec.partition ds name (ms.map fun m => (m.components, m.firstInCds)) = true := by
+  obtain ⟨ms', hb', hs, hflat, hfirst⟩ := build_spec ds name h.1 h.2
+  rw [hb] at hb'; injection hb' with hb'; subst hb'
+  exact partition_holds ds name ms hflat (fun m hm => (hs m hm).2) hfirst
+
+/-- … the equation itself -/
+theorem build_partition_eq (ds : List Domain) (name : String) (h : InputOK ds name) (ms : List Module)
+    (hb : build ds name = .ok ms) :
+    (ms.flatMap (·.components)).map Comp.domain
+      = (sortDomains ds).filter (fun d => !Spec.ignoredDomain d) := by
+  obtain ⟨ms', hb', _, hflat, _⟩ := build_spec ds name h.1 h.2
+  rw [hb] at hb'; injection hb' with hb'; subst hb'
+  rw [hflat]; exact map_domain_filter name _
+
+/-- 3. every module respects the documented layout -/
+theorem build_layout (ds : List Domain) (name : String) (h : InputOK ds name) (ms : List Module)
+    (hb : build ds name = .ok ms) : ∀ m ∈ ms, Spec.layout m.components = true := by
+  obtain ⟨ms', hb', hs, _⟩ := build_spec ds name h.1 h.2
+  rw [hb] at hb'; injection hb' with hb'; subst hb'
+  exact fun m hm => (hs m hm).1.facts.2.2
+
+/-- 4. a module is reported complete exactly by the documented rule; likewise trans-AT, starter
+    module, termination module, iterative, PKS, NRPS -/
+theorem complete_iff (ds : List Domain) (name : String) (h : InputOK ds name) (ms : List Module)
+    (hb : build ds name = .ok ms) : ∀ m ∈ ms,
+    m.isComplete = Spec.complete m.components m.firstInCds
+    ∧ m.isTransAt = Spec.transAt m.components
+    ∧ m.isStarterModule = Spec.starterModule m.components m.firstInCds
+    ∧ m.isTerminationModule = Spec.terminationModule m.components
+    ∧ m.isIterative = Spec.iterative m.components
+    ∧ m.isPks = Spec.isPks m.components
+    ∧ m.isNrps = Spec.isNrps m.components := by
+  obtain ⟨ms', hb', hs, _⟩ := build_spec ds name h.1 h.2
+  rw [hb] at hb'; injection hb' with hb'; subst hb'
+  intro m hm
+  have hI := (hs m hm).1.facts.1
+  exact ⟨hI.isComplete_eq, hI.isTransAt_eq, hI.isStarterModule_eq, hI.isTerminationModule_eq,
+         hI.isIterative_eq, rfl, hI.isNrps_eq⟩
+
+/-- 5. a module rebuilt from its saved form is identical (whole state, not just the components) -/
+theorem reload_identity (ds : List Domain) (name : String) (h : InputOK ds name) (ms : List Module)
+    (hb : build ds name = .ok ms) : ∀ m ∈ ms, Module.fromJson m.toJson = .ok m := by
+  obtain ⟨ms', hb', hs, hflat, _⟩ := build_spec ds name h.1 h.2
+  rw [hb] at hb'; injection hb' with hb'; subst hb'
+  intro m hm
+  apply fromJson_toJson (hs m hm).1
+  intro c hc
+  have hmem : c ∈ ms.flatMap (·.components) := List.mem_flatMap.mpr ⟨m, hm, hc⟩
+  rw [hflat] at hmem
+  obtain ⟨d, hd, rfl⟩ := List.mem_map.mp (List.mem_filter.mp hmem).1
+  exact ⟨h.2 d ((mem_sortDomains ds d).mp hd), h.1⟩
 
 end ASV.C14
